@@ -464,6 +464,22 @@ def shrink(cls, t, hist, prop, kind, max_runs=300):
     """delta-debugging: drop one op at a time while the same (property, kind) is still violated"""
     hist = [list(op) for op in hist]
     runs = 0
+    if len(hist) > 40:
+        # long histories: drop chunks first (halves ... eighths of what is left, never below 8 operations at a time); what is
+        # still long afterwards (a defect that needs the length) is kept as it is
+        size = len(hist) // 2
+        while size >= 8 and runs < 60:
+            i = 0
+            while i < len(hist) and runs < 60:
+                h2 = hist[:i] + hist[i + size:]
+                runs += 1
+                if h2 and any(p == prop and k == kind for p, k, _ in decide(cls, t, h2, (prop,))[0]):
+                    hist = h2
+                else:
+                    i += size
+            size //= 2
+        if len(hist) > 60:
+            return hist
     changed = True
     while changed and runs < max_runs:
         changed = False
